@@ -196,4 +196,475 @@ theorem validate_sound (s p : Str) (h : normalizeAndValidate s = .ok p) :
           | cons r rs =>
             simp [joinSlash_cons_cons, dotdot, jumpPrefix, List.isPrefixOf]
 
+
+/-! ### Keys: rendering proper-name lists and how the path functions act on them -/
+
+theorem proper_no_slash {c : Comp} (h : Proper c) : '/' ∉ c := h.2.2.2
+theorem proper_ne_nil {c : Comp} (h : Proper c) : c ≠ [] := h.1
+theorem proper_ne_dot {c : Comp} (h : Proper c) : c ≠ dot := h.2.1
+
+/-- Folding `reduceStep` over components that are proper, "." or empty just pushes the proper
+    ones. -/
+theorem foldl_reduceStep_plain (rooted : Bool) (cs : List Comp)
+    (h : ∀ c ∈ cs, Proper c ∨ c = dot ∨ c = []) (st : List Comp) :
+    cs.foldl (reduceStep rooted) st = (cs.filter (fun c => decide (Proper c))).reverse ++ st := by
+  induction cs generalizing st with
+  | nil => simp
+  | cons c cs ih =>
+    simp only [List.foldl]
+    rw [ih (fun x hx => h x (by simp [hx]))]
+    rcases h c (by simp) with hp | hd | he
+    · have : reduceStep rooted st c = c :: st := by
+        unfold reduceStep
+        rw [if_neg hp.1, if_neg hp.2.1, if_neg hp.2.2.1]
+      rw [this]; simp [List.filter, hp]
+    · subst hd
+      have : reduceStep rooted st dot = st := by
+        unfold reduceStep; rw [if_neg (by decide), if_pos rfl]
+      have hnp : ¬ Proper dot := fun h => h.2.1 rfl
+      rw [this]; simp [List.filter, hnp]
+    · subst he
+      have : reduceStep rooted st [] = st := by unfold reduceStep; rw [if_pos rfl]
+      have hnp : ¬ Proper ([] : Comp) := fun h => h.1 rfl
+      rw [this]; simp [List.filter, hnp]
+
+theorem reduce_plain (rooted : Bool) (cs : List Comp) (h : ∀ c ∈ cs, Proper c ∨ c = dot ∨ c = []) :
+    reduce rooted cs = cs.filter (fun c => decide (Proper c)) := by
+  unfold reduce; rw [foldl_reduceStep_plain rooted cs h]; simp
+
+theorem filter_proper_of_allProper {ns : List Comp} (h : AllProper ns) :
+    ns.filter (fun c => decide (Proper c)) = ns := by
+  apply List.filter_eq_self.mpr
+  intro a ha; simpa using h a ha
+
+theorem joinSlash_head_of_proper {n : Comp} {ns : List Comp} (h : Proper n) :
+    ∃ c t, joinSlash (n :: ns) = c :: t ∧ c ≠ '/' := by
+  cases n with
+  | nil => exact absurd rfl h.1
+  | cons c t =>
+    have hc : c ≠ '/' := by
+      intro e; apply h.2.2.2; simp [e]
+    cases ns with
+    | nil => exact ⟨c, t, rfl, hc⟩
+    | cons m ms => exact ⟨c, _, rfl, hc⟩
+
+theorem isAbs_renderKey {ns : Key} (h : AllProper ns) : isAbs (renderKey ns) = false := by
+  cases ns with
+  | nil => decide
+  | cons n rest =>
+    obtain ⟨c, t, heq, hc⟩ := joinSlash_head_of_proper (ns := rest) (h n (by simp))
+    simp [renderKey, render, heq, isAbs, hc]
+
+theorem renderKey_cons (n : Comp) (ns : List Comp) : renderKey (n :: ns) = joinSlash (n :: ns) := by
+  simp [renderKey, render]
+
+theorem renderKey_nil : renderKey [] = dot := by simp [renderKey, render]
+
+theorem splitSlash_renderKey_cons {n : Comp} {ns : List Comp} (h : AllProper (n :: ns)) :
+    splitSlash (renderKey (n :: ns)) = n :: ns := by
+  rw [renderKey_cons]
+  exact splitSlash_joinSlash _ (by simp) (fun x hx => proper_no_slash (h x hx))
+
+/-- `clean` is the identity on rendered keys. -/
+theorem clean_renderKey {ns : Key} (h : AllProper ns) : clean (renderKey ns) = renderKey ns := by
+  cases ns with
+  | nil => decide
+  | cons n rest =>
+    unfold clean
+    rw [isAbs_renderKey h, splitSlash_renderKey_cons h]
+    rw [reduce_plain false _ (fun c hc => Or.inl (h c hc)), filter_proper_of_allProper h]
+    rfl
+
+/-- Rendered keys are distinct for distinct keys. -/
+theorem renderKey_inj {a b : Key} (ha : AllProper a) (hb : AllProper b)
+    (h : renderKey a = renderKey b) : a = b := by
+  have hsplit : ∀ {k : Key}, AllProper k → splitSlash (renderKey k) = if k = [] then [dot] else k := by
+    intro k hk
+    cases k with
+    | nil => decide
+    | cons n ns => simp [splitSlash_renderKey_cons hk]
+  have h1 := hsplit ha
+  have h2 := hsplit hb
+  rw [h] at h1
+  rw [h1] at h2
+  cases a with
+  | nil =>
+    cases b with
+    | nil => rfl
+    | cons n ns =>
+      simp at h2
+      exfalso; exact proper_ne_dot (hb n (by simp)) h2.1.symm
+  | cons m ms =>
+    cases b with
+    | nil =>
+      simp at h2
+      exfalso; exact proper_ne_dot (ha m (by simp)) h2.1
+    | cons n ns => simpa using h2
+
+theorem splitSlash_append (x y : Str) :
+    splitSlash (x ++ '/' :: y) = splitSlash x ++ splitSlash y := by
+  induction x with
+  | nil => simp [splitSlash_cons_slash, splitSlash]
+  | cons c cs ih =>
+    by_cases hc : c = '/'
+    · subst hc
+      show splitSlash ('/' :: (cs ++ '/' :: y)) = _
+      rw [splitSlash_cons_slash, splitSlash_cons_slash, ih]; simp
+    · cases hs : splitSlash cs with
+      | nil => exact absurd hs (splitSlash_ne_nil cs)
+      | cons hd tl =>
+        rw [splitSlash_cons_ne c cs hc hd tl hs]
+        show splitSlash (c :: (cs ++ '/' :: y)) = _
+        rw [splitSlash_cons_ne c (cs ++ '/' :: y) hc hd (tl ++ splitSlash y) (by rw [ih, hs]; simp)]
+        simp
+
+theorem renderKey_ne_nil {k : Key} (h : AllProper k) : renderKey k ≠ [] := by
+  cases k with
+  | nil => decide
+  | cons n ns =>
+    obtain ⟨c, t, heq, _⟩ := joinSlash_head_of_proper (ns := ns) (h n (by simp))
+    rw [renderKey_cons, heq]; simp
+
+theorem splitSlash_renderKey_plain {k : Key} (h : AllProper k) :
+    ∀ c ∈ splitSlash (renderKey k), Proper c ∨ c = dot ∨ c = [] := by
+  cases k with
+  | nil => intro c hc; have : c = dot := by simpa [renderKey_nil, dot, splitSlash] using hc
+           exact Or.inr (Or.inl this)
+  | cons n ns => rw [splitSlash_renderKey_cons h]; intro c hc; exact Or.inl (h c hc)
+
+theorem filter_splitSlash_renderKey {k : Key} (h : AllProper k) :
+    (splitSlash (renderKey k)).filter (fun c => decide (Proper c)) = k := by
+  cases k with
+  | nil => decide
+  | cons n ns => rw [splitSlash_renderKey_cons h]; exact filter_proper_of_allProper h
+
+theorem isAbs_append_of_renderKey {k : Key} (h : AllProper k) (rest : Str) :
+    isAbs (renderKey k ++ rest) = false := by
+  cases k with
+  | nil => simp [renderKey_nil, dot, isAbs]
+  | cons n ns =>
+    obtain ⟨c, t, heq, hc⟩ := joinSlash_head_of_proper (ns := ns) (h n (by simp))
+    rw [renderKey_cons, heq]; simp [isAbs, hc]
+
+/-- `Join(prefix, path)` of two keys is the key of the concatenation. -/
+theorem join_keys {a b : Key} (ha : AllProper a) (hb : AllProper b) :
+    join [renderKey a, renderKey b] = renderKey (a ++ b) := by
+  unfold join
+  have hna := renderKey_ne_nil ha
+  have hnb := renderKey_ne_nil hb
+  simp only [List.filter, hna, hnb, ne_eq, not_false_eq_true, decide_true]
+  show clean (renderKey a ++ '/' :: renderKey b) = _
+  unfold clean
+  rw [isAbs_append_of_renderKey ha, splitSlash_append]
+  rw [reduce_plain false _ (by
+    intro c hc
+    rcases List.mem_append.mp hc with hc | hc
+    · exact splitSlash_renderKey_plain ha c hc
+    · exact splitSlash_renderKey_plain hb c hc)]
+  rw [List.filter_append, filter_splitSlash_renderKey ha, filter_splitSlash_renderKey hb]
+  rfl
+
+
+/-! ### dir / equalsOrContainsPath / rel on keys -/
+
+theorem joinSlash_append_singleton_nil (ns : List Comp) (hne : ns ≠ []) :
+    joinSlash (ns ++ [[]]) = joinSlash ns ++ ['/'] := by
+  induction ns with
+  | nil => exact absurd rfl hne
+  | cons n rest ih =>
+    cases rest with
+    | nil => simp [joinSlash]
+    | cons r rs =>
+      have := ih (by simp)
+      simp only [List.cons_append, joinSlash] at this ⊢
+      rw [this]; simp
+
+/-- `Dir` of a key with at least one component drops the last component. -/
+theorem dir_renderKey_snoc {ns : Key} {n : Comp} (h : AllProper (ns ++ [n])) :
+    dir (renderKey (ns ++ [n])) = renderKey ns := by
+  have hns : AllProper ns := (allProper_append.mp h).1
+  unfold dir splitDir
+  have hsplit : splitSlash (renderKey (ns ++ [n])) = ns ++ [n] := by
+    cases ns with
+    | nil => exact splitSlash_renderKey_cons (n := n) (ns := []) h
+    | cons m ms => exact splitSlash_renderKey_cons (n := m) (ns := ms ++ [n]) h
+  rw [hsplit]
+  have hne : ns ++ [n] ≠ [] := by simp
+  cases hh : ns ++ [n] with
+  | nil => exact absurd hh hne
+  | cons x xs =>
+    simp only
+    rw [← hh, List.dropLast_concat]
+    cases ns with
+    | nil =>
+      simp [joinSlash]
+      decide
+    | cons m ms =>
+      rw [joinSlash_append_singleton_nil _ (by simp)]
+      have hk : joinSlash (m :: ms) = renderKey (m :: ms) := (renderKey_cons m ms).symm
+      rw [hk]
+      unfold clean
+      rw [isAbs_append_of_renderKey hns]
+      have : renderKey (m :: ms) ++ ['/'] = renderKey (m :: ms) ++ '/' :: [] := rfl
+      rw [this, splitSlash_append]
+      rw [reduce_plain false _ (by
+        intro c hc
+        rcases List.mem_append.mp hc with hc | hc
+        · exact splitSlash_renderKey_plain hns c hc
+        · simp [splitSlash] at hc; exact Or.inr (Or.inr hc))]
+      rw [List.filter_append, filter_splitSlash_renderKey hns]
+      have hf : List.filter (fun c => decide (Proper c)) (splitSlash []) = [] := by
+        simp [splitSlash, List.filter, Proper]
+      rw [hf]; simp [renderKey]
+
+theorem renderKey_ne_dot {k : Key} (h : AllProper k) (hne : k ≠ []) : renderKey k ≠ dot := by
+  intro e
+  have := renderKey_inj h allProper_nil (by rw [e, renderKey_nil])
+  exact hne this
+
+theorem list_snoc_induction {α : Type} {P : List α → Prop} (hnil : P [])
+    (hsnoc : ∀ l a, P l → P (l ++ [a])) : ∀ l, P l := by
+  have : ∀ l : List α, P l.reverse := by
+    intro l
+    induction l with
+    | nil => simpa
+    | cons a t ih => rw [List.reverse_cons]; exact hsnoc _ _ ih
+  intro l; simpa using this l.reverse
+
+theorem ecpLoop_keys {a : Key} (ha : AllProper a) (hane : a ≠ []) :
+    ∀ (b : Key), AllProper b → ∀ fuel, b.length < fuel →
+      (ecpLoop (renderKey a) fuel (renderKey b) = true ↔ a <+: b) := by
+  intro b
+  induction b using list_snoc_induction with
+  | hnil =>
+    intro _ fuel hf
+    cases fuel with
+    | zero => omega
+    | succ f =>
+      simp [ecpLoop, renderKey_nil]
+      exact hane
+  | hsnoc b' n ih =>
+    intro hb fuel hf
+    have hb' : AllProper b' := (allProper_append.mp hb).1
+    cases fuel with
+    | zero => omega
+    | succ f =>
+      have hnd : renderKey (b' ++ [n]) ≠ dot := renderKey_ne_dot hb (by simp)
+      rw [ecpLoop, if_neg hnd]
+      by_cases heq : renderKey a = renderKey (b' ++ [n])
+      · rw [if_pos heq]
+        have := renderKey_inj ha hb heq
+        simp [this]
+      · rw [if_neg heq, dir_renderKey_snoc hb]
+        have hlen : b'.length < f := by simp at hf; omega
+        rw [ih hb' f hlen]
+        rw [List.prefix_concat_iff]
+        constructor
+        · intro h; exact Or.inr h
+        · intro h
+          rcases h with h | h
+          · exfalso; apply heq; rw [h]
+          · exact h
+
+theorem length_renderKey_ge {k : Key} (h : AllProper k) : k.length ≤ (renderKey k).length := by
+  induction k with
+  | nil => simp
+  | cons n ns ih =>
+    have hn : n ≠ [] := proper_ne_nil (h n (by simp))
+    have hl : 1 ≤ n.length := by
+      cases n with
+      | nil => exact absurd rfl hn
+      | cons _ _ => simp
+    cases ns with
+    | nil => simp [renderKey, render, joinSlash]; exact hl
+    | cons m ms =>
+      have := ih (fun x hx => h x (by simp [hx]))
+      simp only [renderKey_cons, joinSlash, List.length_append, List.length_cons] at this ⊢
+      omega
+
+/-- On keys, `EqualsOrContainsPath` is exactly the component-wise prefix relation
+    (path-wise, not string-wise). -/
+theorem ecp_keys {a b : Key} (ha : AllProper a) (hb : AllProper b) :
+    equalsOrContainsPath (renderKey a) (renderKey b) = true ↔ a <+: b := by
+  unfold equalsOrContainsPath
+  by_cases hane : a = []
+  · subst hane; simp [renderKey_nil]
+  · rw [if_neg (renderKey_ne_dot ha hane)]
+    exact ecpLoop_keys ha hane b hb _ (by have := length_renderKey_ge hb; omega)
+
+theorem cleanComps_renderKey {k : Key} (h : AllProper k) : cleanComps (renderKey k) = k := by
+  cases k with
+  | nil => decide
+  | cons n ns =>
+    unfold cleanComps
+    rw [if_neg (renderKey_ne_dot h (by simp)), isAbs_renderKey h]
+    simp only [Bool.false_eq_true, if_false]
+    rw [splitSlash_renderKey_cons h]
+    apply List.filter_eq_self.mpr
+    intro c hc
+    simpa using proper_ne_nil (h c hc)
+
+theorem stripCommon_prefix (p k : List Comp) : stripCommon p (p ++ k) = ([], k) := by
+  induction p with
+  | nil => cases k <;> simp [stripCommon]
+  | cons x xs ih => simp [stripCommon, ih]
+
+/-- prefixMapper.UnmapFullPath on keys: `Rel(prefix, prefix/k) = k`. -/
+theorem rel_keys {p k : Key} (hp : AllProper p) (hk : AllProper k) :
+    rel (renderKey p) (renderKey (p ++ k)) = some (renderKey k) := by
+  have hpk : AllProper (p ++ k) := allProper_append.mpr ⟨hp, hk⟩
+  unfold rel
+  simp only [clean_renderKey hp, clean_renderKey hpk]
+  by_cases hk0 : k = []
+  · subst hk0; simp [renderKey_nil]
+  · have hne : renderKey p ≠ renderKey (p ++ k) := by
+      intro e
+      have := renderKey_inj hp hpk e
+      have : p.length = (p ++ k).length := by rw [← this]
+      simp at this; exact hk0 this
+    rw [if_neg hne, isAbs_renderKey hp, isAbs_renderKey hpk]
+    simp only [bne_self_eq_false, Bool.false_eq_true, if_false]
+    rw [cleanComps_renderKey hp, cleanComps_renderKey hpk, stripCommon_prefix]
+    simp [renderKey, render, hk0]
+
+
+/-! ### Validation accepts exactly-rendered keys -/
+
+theorem dotdot_not_proper : ¬ Proper dotdot := fun h => h.2.2.1 rfl
+
+theorem renderKey_not_jump {k : Key} (h : AllProper k) :
+    renderKey k ≠ dotdot ∧ jumpPrefix.isPrefixOf (renderKey k) = false := by
+  cases k with
+  | nil => decide
+  | cons n ns =>
+    have hs := splitSlash_renderKey_cons h
+    constructor
+    · intro e
+      rw [e] at hs
+      have : splitSlash dotdot = [dotdot] := by decide
+      rw [this] at hs
+      have : n = dotdot := by simpa using (List.cons.inj hs).1.symm
+      exact dotdot_not_proper (this ▸ h n (by simp))
+    · cases hj : jumpPrefix.isPrefixOf (renderKey (n :: ns)) with
+      | false => rfl
+      | true =>
+        exfalso
+        have hp : jumpPrefix <+: renderKey (n :: ns) := List.isPrefixOf_iff_prefix.mp hj
+        obtain ⟨t, ht⟩ := hp
+        have : renderKey (n :: ns) = dotdot ++ '/' :: t := by rw [← ht]; rfl
+        rw [this, splitSlash_append] at hs
+        have hd : splitSlash dotdot = [dotdot] := by decide
+        rw [hd] at hs
+        have : n = dotdot := by simpa using (List.cons.inj hs).1.symm
+        exact dotdot_not_proper (this ▸ h n (by simp))
+
+theorem validate_renderKey {k : Key} (h : AllProper k) :
+    normalizeAndValidate (renderKey k) = .ok (renderKey k) := by
+  unfold normalizeAndValidate
+  simp only [clean_renderKey h, isAbs_renderKey h]
+  obtain ⟨h1, h2⟩ := renderKey_not_jump h
+  simp [h1, h2]
+
+theorem validatePath_renderKey {k : Key} (h : AllProper k) (hne : k ≠ []) :
+    validatePath (renderKey k) = .ok (renderKey k) := by
+  unfold validatePath
+  rw [validate_renderKey h]
+  simp [renderKey_ne_dot h hne]
+
+/-- validatePath accepts `s` only as a non-empty key. -/
+theorem validatePath_sound (s p : Str) (h : validatePath s = .ok p) :
+    ∃ k : Key, AllProper k ∧ k ≠ [] ∧ p = renderKey k ∧ normalizeAndValidate s = .ok p := by
+  unfold validatePath at h
+  cases hv : normalizeAndValidate s with
+  | error e => rw [hv] at h; cases h
+  | ok q =>
+    rw [hv] at h
+    simp only at h
+    split at h
+    · cases h
+    · rename_i hnd
+      injection h with h; subst h
+      obtain ⟨k, hk, hq⟩ := validate_sound s q hv
+      refine ⟨k, hk, ?_, hq, rfl⟩
+      intro e; subst e; exact hnd (by rw [hq, renderKey_nil])
+
+
+/-! ### Archive entry names -/
+
+theorem join_comps {k : Key} (h : AllProper k) (hne : k ≠ []) : join k = renderKey k := by
+  unfold join
+  have hf : k.filter (fun x => decide (x ≠ [])) = k := by
+    apply List.filter_eq_self.mpr
+    intro c hc; simpa using proper_ne_nil (h c hc)
+  rw [hf]
+  cases k with
+  | nil => exact absurd rfl hne
+  | cons n ns =>
+    simp only
+    rw [← renderKey_cons, clean_renderKey h]
+
+theorem components_renderKey {k : Key} (h : AllProper k) (hne : k ≠ []) : components (renderKey k) = k := by
+  cases k with
+  | nil => exact absurd rfl hne
+  | cons n ns =>
+    unfold components
+    have h1 : renderKey (n :: ns) ≠ ['/'] := by
+      intro e
+      have := isAbs_renderKey h
+      rw [e] at this; simp [isAbs] at this
+    rw [if_neg h1, isAbs_renderKey h]
+    simp only [Bool.false_eq_true, if_false]
+    exact splitSlash_renderKey_cons h
+
+theorem stripComponents_renderKey {k : Key} (h : AllProper k) (hne : k ≠ []) (n : Nat) (p : Str)
+    (hs : stripComponents (renderKey k) n = some p) :
+    ∃ k' : Key, AllProper k' ∧ k' ≠ [] ∧ p = renderKey k' ∧ k' = k.drop n := by
+  unfold stripComponents at hs
+  by_cases hn : n = 0
+  · subst hn; simp at hs; exact ⟨k, h, hne, hs.symm, by simp⟩
+  · rw [if_neg hn, components_renderKey h hne] at hs
+    simp only at hs
+    split at hs
+    · cases hs
+    · rename_i hlen
+      injection hs with hs
+      have hd : k.drop n ≠ [] := by
+        intro e
+        have := List.drop_eq_nil_iff.mp e
+        omega
+      have hdp : AllProper (k.drop n) := fun x hx => h x (List.mem_of_mem_drop hx)
+      exact ⟨k.drop n, hdp, hd, by rw [← hs, join_comps hdp hd], rfl⟩
+
+/-- An archive entry is only ever written to a non-empty key of proper names — a suffix of
+    the validated entry name: "..", absolute and otherwise escaping names are rejected. -/
+theorem unmapArchivePath_sound (name : Str) (n : Nat) (f : Str → Bool) (p : Str)
+    (h : unmapArchivePath name n f = .ok (some p)) :
+    ∃ kf k : Key, AllProper kf ∧ normalizeAndValidate name = .ok (renderKey kf) ∧
+      AllProper k ∧ k ≠ [] ∧ p = renderKey k ∧ k = kf.drop n := by
+  unfold unmapArchivePath at h
+  split at h
+  · cases h
+  · cases hv : normalizeAndValidate name with
+    | error e => rw [hv] at h; cases h
+    | ok full =>
+      rw [hv] at h
+      simp only at h
+      obtain ⟨kf, hkf, hfull⟩ := validate_sound name full hv
+      split at h
+      · cases h
+      · rename_i hnd
+        have hkne : kf ≠ [] := by
+          intro e; subst e; exact hnd (by rw [hfull, renderKey_nil])
+        cases hs : stripComponents full n with
+        | none => rw [hs] at h; cases h
+        | some q =>
+          rw [hs] at h
+          simp only at h
+          split at h
+          · injection h with h; injection h with h; subst h
+            rw [hfull] at hs
+            obtain ⟨k', h1, h2, h3, h4⟩ := stripComponents_renderKey hkf hkne n q hs
+            exact ⟨kf, k', hkf, by rw [hfull], h1, h2, h3, h4⟩
+          · cases h
+
 end BufModel.Path
